@@ -81,7 +81,9 @@ RoundTrip(t) == InDom(t) => FromStr(ToStr(t)) = t
 FieldSeq == << <<>>, <<"a">>, <<"a", "b">>, <<":">>, <<"a", ":">>, <<"#", "a">>, <<"(", "a">>, <<"a", ")">>, <<"@">>, <<"a", "#", "b">>,
               <<"a", ":", "/", "/", "b">>, <<"/", "a", ".", "b", "?", "c", "=", "d">>,   \* URL-like contents
               <<".", ".", ".">>,
-              <<"a", "\n">>, <<"\n">> >>     \* a field that ends in a line break, a field that is one     \* the spelling other Zanzibar implementations give the "any relation" wildcard: an ordinary string here
+              <<"a", "\n">>, <<"\n">>,
+              \* contents that look like URL escapes: "%61" is what "a" looks like escaped, "%2541" unescapes to "%41" and then to "A"
+              <<"%", "6", "1">>, <<"%", "2", "5", "4", "1">> >>     \* a field that ends in a line break, a field that is one     \* the spelling other Zanzibar implementations give the "any relation" wildcard: an ordinary string here
 NF == Len(FieldSeq)
 NsSeq == << <<"a">>, <<":">> >>
 ObjSeq == << <<"a">>, <<"#", "a">> >>
